@@ -391,6 +391,73 @@ fn race_ops(seed: u64, thread: usize) -> Vec<Op> {
     v
 }
 
+/// `child c13-op <op-json>`: execute one op as the only library call of a fresh process.
+pub fn child_op(args: &[String]) -> i32 {
+    let v: Value = match serde_json::from_str(&args[0]) {
+        Ok(v) => v,
+        Err(_) => return 2,
+    };
+    let op = match op_from_json(&v) {
+        Some(o) => o,
+        None => return 2,
+    };
+    match guarded(|| Ok(exec(&op))).unwrap_or_else(Out::Err) {
+        Out::Bits(b) => println!("{}", json!({"ok": b})),
+        Out::Err(e) => println!("{}", json!({"err": e})),
+    }
+    0
+}
+
+/// Result of `op` as the only library call of a fresh process (nothing process-wide is warm).
+fn process_cold(op: &Op) -> Result<Out, String> {
+    let exe = std::env::current_exe().map_err(|e| format!("HARNESS: {}", e))?;
+    let out = std::process::Command::new(exe)
+        .args(["child", "c13-op", &op_json(op).to_string()])
+        .output()
+        .map_err(|e| format!("HARNESS: {}", e))?;
+    if !out.status.success() {
+        return Err(format!("HARNESS: child for {} ended with {:?}", op_json(op), out.status));
+    }
+    let v: Value = serde_json::from_slice(&out.stdout).map_err(|e| format!("HARNESS: bad child output: {}", e))?;
+    if let Some(a) = v["ok"].as_array() {
+        Ok(Out::Bits(a.iter().map(|x| x.as_u64().unwrap_or(0)).collect()))
+    } else {
+        Ok(Out::Err(v["err"].as_str().unwrap_or("").to_string()))
+    }
+}
+
+/// History against fresh-*process* references: catches state shared by all threads of a process
+/// (statics), which a fresh-thread reference inherits.
+fn check_history_process_cold(h: &History, st: &mut Stats) -> Result<(), String> {
+    let refs: Vec<Out> = h.ops.iter().map(process_cold).collect::<Result<_, _>>()?;
+    let ops = h.ops.clone();
+    let refs2 = refs.clone();
+    let r = std::thread::Builder::new()
+        .stack_size(16 << 20)
+        .spawn(move || -> Result<(), String> {
+            for (i, op) in ops.iter().enumerate() {
+                let got = guarded(|| Ok(exec(op))).unwrap_or_else(Out::Err);
+                if got != refs2[i] {
+                    return Err(format!(
+                        "process-history effect: call #{} of the history ({}) returned {} inside this long-lived process but {} as the only call of a fresh process",
+                        i, op_json(op), describe(&got), describe(&refs2[i])
+                    ));
+                }
+            }
+            Ok(())
+        })
+        .unwrap()
+        .join()
+        .map_err(|_| "history thread panicked".to_string())?;
+    r?;
+    for op in &h.ops {
+        st.eval();
+        st.nontrivial(&("process-cold", op_json(op).to_string()));
+    }
+    st.hit("history-checked-against-fresh-process-references");
+    Ok(())
+}
+
 fn out_hash(o: &Out) -> u64 {
     match o {
         Out::Bits(v) => fingerprint(&(0u8, v)),
@@ -453,26 +520,52 @@ fn check_race(seed: u64, st: &mut Stats) -> Result<(), String> {
 pub fn run(tier: Tier, seed: u64) -> Report {
     let mut rep = Report::new("C13", tier, seed, RULE);
     rep.assume("the interleaving dimension is stress exploration under the OS scheduler (barrier-released threads, fresh-process first-call races), not schedule enumeration");
-    let r = run_pbt(
+    let only = std::env::var("A5VERIF_C13_ONLY").unwrap_or_default();
+    let skip = |name: &str| !only.is_empty() && only != name;
+    let r = if skip("histories") { SectionResult { stats: Stats::default(), violation: None } } else { run_pbt(
         "histories",
         seed,
         tier.pick(150, 5_000),
         || (proptest::collection::vec(ops(), 1..60), any::<u64>()).prop_map(|(ops, perm_seed)| History { ops, perm_seed }).boxed(),
         check_history,
         history_json,
-    );
+    ) };
     if !rep.absorb("histories", r) {
         return rep;
     }
-    let r = run_pbt(
+    let r = if skip("related-histories") { SectionResult { stats: Stats::default(), violation: None } } else { run_pbt(
         "related-histories",
         seed,
         tier.pick(150, 5_000),
         || (related_ops(), any::<u64>()).prop_map(|(ops, perm_seed)| History { ops, perm_seed }).boxed(),
         check_history,
         history_json,
-    );
+    ) };
     if !rep.absorb("related-histories", r) {
+        return rep;
+    }
+    // fresh-process references, single worker (so that this process's own state evolves only through
+    // this worker's sequence of histories and a failure is reproducible from the preceding cases)
+    let r = run_pbt_workers(
+        "process-cold-histories",
+        seed,
+        tier.pick(120, 3_000),
+        1,
+        || {
+            (prop_oneof![proptest::collection::vec(ops(), 1..10), related_ops().prop_map(|mut v| { v.truncate(10); v })], any::<u64>())
+                .prop_map(|(ops, perm_seed)| History { ops, perm_seed })
+                .boxed()
+        },
+        check_history_process_cold,
+        history_json,
+    );
+    if let Some(v) = &r.violation {
+        if v.message.starts_with("HARNESS:") {
+            eprintln!("harness: {}", v.message);
+            std::process::exit(2);
+        }
+    }
+    if !rep.absorb("process-cold-histories", r) {
         return rep;
     }
     let cold_slots = rep.stats.hist.keys().filter(|k| k.starts_with("slot-cold:")).count();
@@ -511,6 +604,7 @@ pub fn replay(section: &str, case: &Value) -> Option<Result<(), String>> {
     let mut st = Stats::default();
     Some(guarded(|| match section {
         "histories" | "related-histories" => check_history(&history_from_json(case).ok_or("bad case")?, &mut st),
+        "process-cold-histories" => check_history_process_cold(&history_from_json(case).ok_or("bad case")?, &mut st),
         "barrier-threads" => {
             let hs: Vec<History> = case.as_array().ok_or("bad case")?.iter().map(history_from_json).collect::<Option<Vec<_>>>().ok_or("bad case")?;
             // a scheduling-dependent failure may need several attempts to show again
